@@ -614,3 +614,171 @@ func init() {
 		return info
 	}
 }
+
+// ---- C04 / C07 / C08: executions beyond the exhaustive bounds -------------------------------
+
+func (g *Gen) joinOn(depth int) Node {
+	cmp := func() Node {
+		var l, r Node
+		op := g.Str(cmpOps)
+		if g.R.Intn(2) == 0 {
+			l, r = Col("x", "a"), Col("y", "m")
+		} else {
+			l, r = Col("x", "z"), Col("y", "b")
+			op = g.Pick("=", "!=", "<", ">=").(string)
+		}
+		if g.R.Intn(3) == 0 {
+			op = "="
+		}
+		if g.R.Intn(2) == 0 {
+			l, r = r, l
+		}
+		return CmpE(op, l, r)
+	}
+	if depth > 0 && g.R.Intn(2) == 0 {
+		if g.R.Intn(3) == 0 {
+			return OrE(g.joinOn(depth-1), cmp())
+		}
+		return AndE(g.joinOn(depth-1), cmp())
+	}
+	return cmp()
+}
+
+func init() {
+	Retrace["C04"] = engineRetrace
+	TraceGen["C04"] = func(seed int64, n int, tier string, w io.Writer) TraceInfo {
+		g := NewGen(seed)
+		info := TraceInfo{}
+		svals := []string{"p", "q", "p-", "-q", "", "r s"}
+		for i := 0; i < n; i++ {
+			mk := func(k1, k2 string) Node {
+				rows := make([]any, g.R.Intn(9))
+				for j := range rows {
+					rows[j] = TObj(Node{k1: TInt(1 + g.R.Intn(4)), k2: TStr(svals[g.R.Intn(len(svals))])})
+				}
+				return TArr(rows)
+			}
+			doc := TObj(Node{"l": mk("a", "z"), "r": mk("m", "b")})
+			ty := g.Pick("inner", "left", "right").(string)
+			kws := joinSpellings[ty]
+			from := Node{"k": "join", "type": ty, "kw": kws[g.R.Intn(len(kws))], "l": Table("x", "l"), "r": Table("y", "r"), "on": g.joinOn(2)}
+			q := With(BaseQ(), "from", from)
+			ev, out := RecordEngine(w, q, doc, Style{}, nil)
+			info.Queries++
+			info.Events += ev
+			if len(info.Samples) < 3 {
+				info.Samples = append(info.Samples, out.SQL)
+			}
+		}
+		return info
+	}
+
+	Retrace["C08"] = engineRetrace
+	TraceGen["C08"] = func(seed int64, n int, tier string, w io.Writer) TraceInfo {
+		g := NewGen(seed)
+		info := TraceInfo{}
+		var nest func(depth int) Node
+		leaf := func() Node {
+			rows := make([]any, g.R.Intn(5))
+			for j := range rows {
+				f := Node{"a": TInt(g.R.Intn(8))}
+				if g.R.Intn(3) == 0 {
+					f["b"] = TInt(g.R.Intn(3))
+				}
+				rows[j] = TObj(f)
+			}
+			return TArr(rows)
+		}
+		nest = func(depth int) Node {
+			if depth == 0 {
+				return leaf()
+			}
+			es := make([]any, 1+g.R.Intn(4))
+			for j := range es {
+				es[j] = nest(depth - 1)
+			}
+			return TArr(es)
+		}
+		for i := 0; i < n; i++ {
+			doc := TObj(Node{"m": nest(1 + g.R.Intn(2))})
+			q := BaseQ()
+			q["from"] = Table("", "m")
+			if g.R.Intn(3) == 0 {
+				q["from"] = Node{"k": "sel", "as": "", "sel": []any{Node{"fn": "mix", "steps": []any{Node{"k": "key", "name": "m"}}}}}
+			}
+			if g.R.Intn(3) != 0 {
+				q["where"] = CmpE(g.Str(cmpOps), Col("a"), Lit(TInt(g.R.Intn(8))))
+			}
+			switch g.R.Intn(4) {
+			case 0:
+				q["sel"] = []any{Item(Bin("+", Col("a"), Lit(TInt(1))), "b")}
+			case 1:
+				q["sel"] = []any{Item(Col("a"), "x"), Item(Col("b"), "")}
+			case 2:
+				q["sel"] = []any{Item(Col("a"), "")}
+			}
+			ev, out := RecordEngine(w, q, doc, Style{}, nil)
+			info.Queries++
+			info.Events += ev
+			if len(info.Samples) < 3 {
+				info.Samples = append(info.Samples, out.SQL)
+			}
+		}
+		return info
+	}
+
+	Retrace["C07"] = engineRetrace
+	TraceGen["C07"] = func(seed int64, n int, tier string, w io.Writer) TraceInfo {
+		g := NewGen(seed)
+		info := TraceInfo{}
+		for i := 0; i < n; i++ {
+			trows := make([]any, g.R.Intn(7))
+			for j := range trows {
+				nested := make([]any, g.R.Intn(4))
+				for k := range nested {
+					nested[k] = TObj(Node{"p": TInt(g.R.Intn(7))})
+				}
+				trows[j] = TObj(Node{"a": TInt(g.R.Intn(9)), "g": TInt(g.R.Intn(3)), "n": TArr(nested)})
+			}
+			urows := make([]any, g.R.Intn(4))
+			for j := range urows {
+				urows[j] = TObj(Node{"c": TInt(g.R.Intn(9))})
+			}
+			doc := TObj(Node{"t": TArr(trows), "u": TArr(urows)})
+			k := Lit(TInt(g.R.Intn(9)))
+			inner := With(BaseQ(), "sel", []any{Item(Col("a"), ""), Item(Col("g"), "")}, "where", CmpE(g.Str(cmpOps), Col("a"), k))
+			switch g.R.Intn(4) {
+			case 0:
+				inner = With(BaseQ(), "sel", []any{Item(Col("g"), ""), AggItem("sum", "a", "a")}, "group", []any{"g"})
+			case 1:
+				inner = With(inner, "order", []any{Node{"key": []any{"a"}, "asc": false}, Node{"key": []any{"g"}, "asc": true}}, "limit", 1+g.R.Intn(4))
+			}
+			var q Node
+			switch g.R.Intn(6) {
+			case 0: // CTE, filtered again
+				q = With(BaseQ(), "with", []any{Node{"name": "c", "q": inner}}, "from", Table("", "c"), "where", CmpE(g.Str(cmpOps), Col("g"), Lit(TInt(g.R.Intn(3)))))
+			case 1: // chain c -> d
+				mid := With(BaseQ(), "from", Table("", "c"), "sel", []any{Item(Col("a"), ""), Item(Col("g"), "")}, "where", CmpE("<=", Col("g"), Lit(TInt(g.R.Intn(3)))))
+				q = With(BaseQ(), "with", []any{Node{"name": "c", "q": inner}, Node{"name": "d", "q": mid}}, "from", Table("", "d"), "sel", []any{AggItem("count", "", "k")})
+			case 2: // derived table
+				q = With(BaseQ(), "from", Derived(inner, "x"), "sel", []any{Item(Col("x", "a"), ""), Item(Col("x", "g"), "")}, "where", CmpE(g.Str(cmpOps), Col("x", "a"), k))
+			case 3: // select-list subquery on the row
+				sub := With(BaseQ(), "from", Table("", "n"), "sel", []any{Item(Col("p"), "")}, "where", CmpE(g.Str(cmpOps), Col("p"), k))
+				q = With(BaseQ(), "sel", []any{Item(Col("a"), ""), Item(Node{"k": "sub", "q": sub}, "s")})
+			case 4: // EXISTS with an outer column
+				sub := With(BaseQ(), "from", Table("", "n"), "where", CmpE(g.Str(cmpOps), Col("p"), Col("a")))
+				q = With(BaseQ(), "sel", []any{Item(Col("a"), "")}, "where", Node{"k": "exists", "q": sub})
+			default: // IN subquery rooted at the document
+				sub := With(BaseQ(), "from", Table("", "<-", "u"), "sel", []any{Item(Col("c"), "")})
+				q = With(BaseQ(), "sel", []any{Item(Col("a"), "")}, "where", InSub(Col("a"), sub))
+			}
+			ev, out := RecordEngine(w, q, doc, Style{}, nil)
+			info.Queries++
+			info.Events += ev
+			if len(info.Samples) < 3 {
+				info.Samples = append(info.Samples, out.SQL)
+			}
+		}
+		return info
+	}
+}
